@@ -175,6 +175,15 @@ func (hc *HeaderChain) WriteHeader(header *types.Header) (status WriteStatus, er
 	// Second clause in the if statement reduces the vulnerability to selfish mining.
 	// Please refer to http://www.cs.cornell.edu/~ie53/publications/btcProcFC.pdf
 	if externTd.Cmp(localTd) > 0 || (externTd.Cmp(localTd) == 0 && mrand.Float64() < 0.5) {
+		// Make sure the branch being adopted is available down to the fork point
+		// (a rewind may have removed some of its ancestors)
+		for h, n := header.ParentHash, number-1; GetCanonicalHash(hc.chainDb, n) != h; {
+			ancestor := hc.GetHeader(h, n)
+			if ancestor == nil {
+				return NonStatTy, consensus.ErrUnknownAncestor
+			}
+			h, n = ancestor.ParentHash, n-1
+		}
 		// Delete any canonical number assignments above the new head
 		for i := number + 1; ; i++ {
 			hash := GetCanonicalHash(hc.chainDb, i)
